@@ -41,6 +41,7 @@ class SimFS:
         self.log: list[tuple[str, str, str, str]] = []  # (task, op, path, result)
         self.eio_fired = 0
         self.enoent_fired = 0
+        self.enotdir_fired = 0
         self.opens = 0
         self.stats = 0
         self.rlog = None  # optional storage.ReadLog: content reads per task
@@ -65,10 +66,22 @@ class SimFS:
         return c
 
     # ------------------------------------------------------------- access
+    def _blocked(self, path: str) -> bool:
+        """A proper ancestor of ``path`` is a regular file (a directory replaced by a file)."""
+        parts = path.split("/")
+        for i in range(3, len(parts)):
+            if "/".join(parts[:i]) in self.files:
+                return True
+        return False
+
     def _stat(self, path: str) -> _Stat:
         self.stats += 1
         if self.rlog is not None:
             self.rlog.check_available(path)
+        if not self.unavailable and self._blocked(path):
+            self.enotdir_fired += 1
+            self.log.append((_task_name(), "stat", path, "ENOTDIR"))
+            raise NotADirectoryError(errno.ENOTDIR, os.strerror(errno.ENOTDIR), path)
         if self.unavailable:
             self.eio_fired += 1
             self.log.append((_task_name(), "stat", path, "EIO"))
@@ -88,6 +101,12 @@ class SimFS:
         self.opens += 1
         if self.rlog is not None:
             self.rlog.check_available(path)
+        if not self.unavailable and self._blocked(path):
+            self.enotdir_fired += 1
+            self.log.append((_task_name(), "open", path, "ENOTDIR"))
+            if self.rlog is not None:
+                self.rlog.fail()
+            raise NotADirectoryError(errno.ENOTDIR, os.strerror(errno.ENOTDIR), path)
         if self.unavailable:
             self.eio_fired += 1
             self.log.append((_task_name(), "open", path, "EIO"))
